@@ -273,3 +273,69 @@ def gen_refresh_longrun(rng, consts, minutes):
         sc.add("at %d search n %040x 1 s0" % (end // 2, comp.rand_id(rng)))
     sc.add("end %d" % end)
     return sc, {"own": own, "world": world, "naddr": naddr, "minutes": minutes}
+
+
+def gen_bootstrap(rng, consts):
+    """C15: builder configurations x responder personalities x outages x concurrent bootstrapped() callers."""
+    sc = simlib.Scenario()
+    v6 = rng.chance(1, 5)
+    own = comp.rand_id(rng)
+    naddr = addr_in_family(rng, v6, 1)
+    sc.add("seed %d" % rng.below(1 << 30))
+    sc.add("latency %d %d" % (1 * MS, rng.choice([5 * MS, 40 * MS, 200 * MS])))
+    kind = rng.choice(["none", "plain", "plain", "plain", "overlap", "routers_only", "many", "dead"])
+    n = {"none": 0, "plain": rng.range(1, 6), "overlap": rng.range(1, 4), "routers_only": rng.range(1, 3),
+         "many": rng.range(12, 40), "dead": rng.range(1, 4)}[kind]
+    world = []
+    resp = []
+    for i in range(n):
+        a = addr_in_family(rng, v6, 100 + i)
+        idv = comp.rand_id(rng)
+        if kind == "dead":
+            mode = rng.choice(["silent", "error", "garbage"])
+        else:
+            mode = "normal" if i == 0 or rng.chance(2, 3) else rng.choice(["silent", "error", "garbage"])
+        sc.add_resp("r%d" % i, a, idv, mode)
+        world.append((idv, a))
+        resp.append((a, mode))
+    if world:
+        sc.add("world " + " ".join("%040x@%s" % (i, a.script()) for i, a in world))
+    addrs = [a for a, _ in resp]
+    nodes, routers = [], []
+    if kind in ("plain", "many", "dead"):
+        nodes = addrs
+    elif kind == "overlap":
+        nodes = addrs
+        routers = addrs[:rng.range(1, len(addrs))]
+    elif kind == "routers_only":
+        routers = addrs
+    sc.add_node("n", naddr, own, ro=rng.chance(1, 2), aport=None, nodes=nodes, routers=routers)
+    # outage: every contact unreachable from 0 to tau (possibly flapping)
+    tau = 0
+    if kind in ("plain", "many") and rng.chance(2, 3):
+        tau = rng.choice([3, 30, 200, 700, 2000, 7200]) * S
+        if rng.chance(1, 3):
+            # flapping: short windows of reachability too brief to complete (< 100 ms)
+            t = 0
+            while t < tau:
+                up = t + rng.range(5, 120) * S
+                for a in addrs:
+                    sc.add("outage %s %d %d" % (a.script(), t, min(up, tau)))
+                t = up + rng.choice([10 * MS, 50 * MS])
+        else:
+            for a in addrs:
+                sc.add("outage %s %d %d" % (a.script(), 0, tau))
+    end = tau + 14 * MIN
+    ncall = rng.range(0, 5)
+    calls = sorted(rng.below(max(1, tau + 2 * S)) for _ in range(ncall))
+    for k, t in enumerate(calls):
+        sc.add("at %d boot n w%d" % (t, k))
+    sc.add("at %d boot n wlate" % (end - 2 * S))
+    for t in (1 * S, end // 2, end - 1 * S):
+        sc.add("at %d state n" % t)
+        sc.add("at %d localaddr n" % t)
+    sc.add("at %d contacts n" % (end - 1 * S))
+    sc.add("end %d" % end)
+    meta = {"kind": kind, "tau": tau, "ncontacts": n, "modes": [m for _, m in resp], "end": end,
+            "has_normal": any(m == "normal" for _, m in resp), "routers": bool(routers)}
+    return sc, meta
